@@ -57,7 +57,7 @@ def rule_chain(ctx):
         add = [labs for v, labs in cm.items() if v.startswith('call:<impl usize>::checked_add(issuer.chain_len,const(1))') or 'checked_add(issuer.chain_len' in v]
         cmpv = [(v, labs) for v, labs in cm.items() if v.startswith('cmp(') and 'max_depth' in v]
         o = p.outcome
-        if add and add[0] == {'None'}:
+        if add and set(add[0]) <= {'None', 'fail'}:
             seen.add('overflow')
             ctx.check(o.startswith('Result::Err'), 'K4', 'chain:overflow=>Err', 'depth counter overflow is an error', 'overflow -> %s' % o)
         elif cmpv:
@@ -106,13 +106,11 @@ def rule_loop(ctx):
         par = [(v, labs) for v, labs in cm.items() if strip_suffix(v).endswith('.parent')]
         if o.startswith('Result::Ok'):
             n_ok += 1
-            last_none = [v for v, labs in par if labs == {'None'}]
-            good = False
-            for v in last_none:
-                node = strip_suffix(v)[:-len('.parent')]
-                for ev, elabs in eqs:
-                    if (node + '.cert') in ev and 'Equal' not in elabs:
-                        good = True
+            # every node on the walk is compared: one comparison for the start node plus one per step to a parent
+            steps = sum(1 for v, labs, _bb in p.conds if re.search(r'\.parent\)*$', strip_suffix(v)) and set(labs) == {'Some'})
+            ends = sum(1 for v, labs, _bb in p.conds if re.search(r'\.parent\)*$', strip_suffix(v)) and set(labs) == {'None'})
+            cmps = sum(1 for v, labs, _bb in p.conds if v.startswith('cmp(') and 'subject_key_identifier' in v and 'key_id' in v and 'Equal' not in labs)
+            good = ends >= 1 and cmps == steps + 1
             ctx.check(good, 'K4', '_check_loop:Ok=>root-key-compared',
                       'Ok is returned only after the key of the parent-less node (trust anchor) was compared too',
                       '_check_loop can return Ok without having compared the key of the last node of the chain (the one without a '
